@@ -63,13 +63,14 @@ def main():
             try: M.explore(entry, on_path)
             except Exception as e: res.append((None, 'EXC %r' % (e,)))
             exp = want[(name, i)]
-            if len(res) != 1: print('MISMATCH %s(%r): %d paths on a concrete input' % (name, s, len(res))); bad += 1; continue
-            pr, got = res[0]
-            if pr is None: print('ERROR %s(%r): %s' % (name, s, got)); bad += 1; continue
-            if pr.inconclusive: unsup.setdefault(name, pr.inconclusive); continue
-            if pr.panic: got = 'PANIC'
-            if got != exp: print('MISMATCH %s(%r): model %r, native %r' % (name, s, got, exp)); bad += 1
-            else: okc += 1
+            # several paths on a concrete input come from nondeterministic contracts (hash iteration order): every one of them must give the native result
+            allok = True
+            for pr, got in res:
+                if pr is None: print('ERROR %s(%r): %s' % (name, s, got)); bad += 1; allok = False; break
+                if pr.inconclusive: unsup.setdefault(name, pr.inconclusive); allok = None; break
+                if pr.panic: got = 'PANIC'
+                if got != exp: print('MISMATCH %s(%r): model %r, native %r' % (name, s, got, exp)); bad += 1; allok = False; break
+            if allok: okc += 1
     for n_, why in sorted(unsup.items()): print('UNSUPPORTED %s: %s' % (n_, why))
     print('modelcheck: %d agree, %d mismatches, %d functions outside the models' % (okc, bad, len(unsup)))
     return 1 if bad else 0
